@@ -62,6 +62,47 @@ theorem csv2d_roundtrip {V T : Type} [DecidableEq V] (c : Codec V T) (n : Num V)
     have := read2dRows_spec c n hF near degen (f :: fs') (by simp) skip dom hnear hlen hdeg
     simpa [valsSpec] using this
 
+/-- Polyline files (format 2, `polyline=True`; porepy has no writer for this format, so this is the
+    reader's specification on the rows `FID, PT_X, PT_Y`).  For polylines listed one after the other
+    with pairwise different, ascending ids and at least two points each, the reader returns, for each
+    polyline in turn, its CONSECUTIVE points as fractures (neighbouring fractures share an end point),
+    each carrying the id of its polyline.  Hypotheses: faithful codec, no two distinct points within
+    tol of each other, consecutive points of a polyline distinct and accepted by LineFracture. -/
+theorem polyline_read {V T : Type} [DecidableEq V] (c : Codec V T) (n : Num V)
+    (near degen : Pt2 V → Pt2 V → Bool) (polys : List (Poly V)) (hdr : Option String) (skip : Nat)
+    (dom : Option (Box2 V)) (hF : Faithful c n)
+    (hskip : skip = 0 ∨ (hdr.isSome = true ∧ skip = 1))
+    (hlen : ∀ P ∈ polys, 2 ≤ P.pts.length)
+    (hids : polys.Pairwise (fun a b => a.id ≠ b.id ∧ n.lt a.id b.id = true))
+    (hnear : ∀ p ∈ allPts polys, ∀ q ∈ allPts polys, near p q = true → p = q)
+    (hseg : ∀ f ∈ polySegs polys, f.a ≠ f.b ∧ degen f.a f.b = false) :
+    read2d c n near degen
+        (hdrLines hdr ++ polyRowsSpec c polys) ⟨skip, none, none, true, dom⟩
+      = .ok ⟨polySegs polys, domOr n dom (allPts polys), polyIds n polys⟩ := by
+  have hdrop : ((hdrLines hdr ++ polyRowsSpec c polys).drop skip).filterMap cellsOf
+      = (polyRowsSpec c polys).filterMap (cellsOf (T := T)) := by
+    rcases hskip with rfl | ⟨h1, rfl⟩
+    · cases hdr with
+      | none => simp [hdrLines]
+      | some h =>
+        simp only [hdrLines, List.drop_zero, List.cons_append, List.nil_append]
+        exact List.filterMap_cons_none rfl
+    · cases hdr with
+      | none => simp at h1
+      | some h => simp [hdrLines]
+  have hsl := sameLen_of_forall _ 3 (polyVals_length polys)
+  simp only [read2d, hdrop, decode_polyRows c n hF, hsl, atleast2d_of_len3 _ (polyVals_length polys)]
+  cases polys with
+  | nil => cases dom <;> rfl
+  | cons P Ps =>
+    have hP := hlen P List.mem_cons_self
+    have hne : (polyVals (P :: Ps)).isEmpty = false := by
+      cases hp : P.pts with
+      | nil => rw [hp] at hP; simp at hP
+      | cons q t => simp [polyVals, hp]
+    have := read2dRows_poly n near degen (P :: Ps) (by simp) skip dom hlen hids hnear hseg
+    simpa [hne] using this
+
 /-- 3-D: the record layer is transparent.  Reading a written file hands the PlaneFracture
     constructor `norm` exactly the vertex lists of the network, in order, and returns the domain that
     was written (`has_domain` must say whether one was written). -/
@@ -135,6 +176,83 @@ theorem csv3d_roundtrip_upto {V T : Type} (c : Codec V T) (n : Num V) (hF : Fait
     cases hpw with
     | nil => rcases hsome with h | h <;> simp at h
     | cons _ _ => rfl
+
+/-- "The same vertex cycle" (equal up to rotation and reflection of the vertex list — the dihedral
+    group of the polygon) is an equivalence relation; so any number of write/read passes stays in the
+    class of the original polygon. -/
+theorem dihedral_equivalence {α : Type} : Equivalence (@Dihedral α) :=
+  ⟨dihedral_refl, dihedral_symm, dihedral_trans⟩
+
+/-- The angular sort of PlaneFracture's constructor on a polygon whose vertices are given in cyclic
+    order (some rotation of the list or of its reverse is strictly ascending in the angle key `θ`):
+    the result is the ascending list, and it is the same vertex cycle as the input. -/
+theorem angSort_dihedral {P : Type} (θ : P → Rat) (f : List P) (h : CyclicMono θ f) :
+    Dihedral (angSort θ f) f ∧ StrictAsc θ (angSort θ f) := by
+  obtain ⟨a, ha, hd⟩ := h
+  rw [angSort_eq_of_perm θ f a (dihedral_perm hd) ha]
+  exact ⟨dihedral_symm hd, ha⟩
+
+/-- A list already ascending in the key is left alone (the constructor is idempotent when the key
+    function does not change). -/
+theorem angSort_fixed {P : Type} (θ : P → Rat) (f : List P) (h : StrictAsc θ f) : angSort θ f = f :=
+  angSort_eq_of_perm θ f f (List.Perm.refl f) h
+
+/-- 3-D round trip with the vertex normalisation modelled: the reader's constructor re-sorts every
+    stored vertex list by the angle key it derives from that list (`θof f`, which in floating point
+    need not be the key the list was sorted with when the network was built: the local frame may flip).
+    If every stored polygon is seen in cyclic order by its key (convex planar polygon in general
+    position), the network read back has the same fractures in the same order, each with the same
+    vertex CYCLE up to rotation/reflection, and the same domain. -/
+theorem csv3d_roundtrip_dihedral {V T : Type} (c : Codec V T) (n : Num V) (hF : Faithful c n)
+    (θof : List (Pt3 V) → Pt3 V → Rat) (fracs : List (List (Pt3 V))) (dom : Option (Box3 V))
+    (h3 : ∀ f ∈ fracs, 3 ≤ f.length) (hcyc : ∀ f ∈ fracs, CyclicMono (θof f) f)
+    (hsome : dom.isSome = true ∨ fracs ≠ []) :
+    ∃ fs, read3d c (normSort θof) (write3d c fracs dom) dom.isSome = .ok ⟨fs, dom⟩ ∧
+      Pointwise Dihedral fs fracs :=
+  csv3d_roundtrip_upto c n hF (normSort θof) Dihedral fracs dom
+    (fun f hf he => by have := h3 f hf; rw [he] at this; simp at this)
+    (fun f hf => ⟨angSort (θof f) f, by
+      have := h3 f hf
+      simp only [normSort, show ¬ f.length < 3 by omega, if_false],
+      (angSort_dihedral (θof f) f (hcyc f hf)).1⟩) hsome
+
+/-- … and exactly the same vertex lists when every stored list is ascending for the key the reader
+    derives from it (the generic case: the key function is reproduced). -/
+theorem csv3d_roundtrip_sorted {V T : Type} (c : Codec V T) (n : Num V) (hF : Faithful c n)
+    (θof : List (Pt3 V) → Pt3 V → Rat) (fracs : List (List (Pt3 V))) (dom : Option (Box3 V))
+    (h3 : ∀ f ∈ fracs, 3 ≤ f.length) (hasc : ∀ f ∈ fracs, StrictAsc (θof f) f)
+    (hsome : dom.isSome = true ∨ fracs ≠ []) :
+    read3d c (normSort θof) (write3d c fracs dom) dom.isSome = .ok ⟨fracs, dom⟩ :=
+  csv3d_roundtrip c n hF (normSort θof) fracs dom
+    (fun f hf he => by have := h3 f hf; rw [he] at this; simp at this)
+    (fun f hf => by
+      have := h3 f hf
+      simp only [normSort, show ¬ f.length < 3 by omega, if_false, angSort_fixed _ _ (hasc f hf)]) hsome
+
+/-- Elliptic 3-D files (`elliptic_network_3d_from_csv`; reader's specification, porepy has no writer
+    for them): a file holding an optional domain line and one row of nine numbers per ellipse hands
+    `create_elliptic_fracture` (`mk`) exactly those nine numbers, row by row, and returns the domain. -/
+theorem elliptic_transparent {V T : Type} (c : Codec V T) (n : Num V) (hF : Faithful c n)
+    (mk : List V → Except Err (List (Pt3 V))) (params : List (List V)) (dom : Option (Box3 V))
+    (h9 : ∀ p ∈ params, p.length = 9) :
+    readElliptic c mk (ellipticRows c params dom) dom.isSome =
+      match mapE mk params with
+      | .error e => .error e
+      | .ok fs => if dom.isNone && fs.isEmpty then .error .value else .ok ⟨fs, dom⟩ := by
+  cases dom with
+  | none =>
+    simp only [ellipticRows, List.nil_append, readElliptic, Option.isSome_none, Bool.false_eq_true, if_false,
+      readFracsE_rows c n hF mk params h9, Option.isNone_none, Bool.true_and]
+    cases mapE mk params with
+    | error e => rfl
+    | ok fs => cases fs <;> rfl
+  | some b =>
+    have hd : decodeRow c .value [c.enc b.xmin, c.enc b.ymin, c.enc b.zmin, c.enc b.xmax, c.enc b.ymax,
+        c.enc b.zmax] = .ok [b.xmin, b.ymin, b.zmin, b.xmax, b.ymax, b.zmax] :=
+      decodeRow_map_enc c n hF .value [b.xmin, b.ymin, b.zmin, b.xmax, b.ymax, b.zmax]
+    simp only [ellipticRows, List.cons_append, List.nil_append, readElliptic, Option.isSome_some, if_true,
+      readDomainE, hd, readFracsE_rows c n hF mk params h9, Option.isNone_some, Bool.false_and]
+    cases mapE mk params <;> rfl
 
 /-- txt round trip, general codec: if a token written with format `f` decodes to `rnd f v`, the arrays
     read back are the arrays written with `rnd` applied entry-wise, under the names written, in order.
@@ -259,6 +377,46 @@ example : ∃ file, exportTxt (fun (_ : Unit) (v : Int) => v) [⟨"a".toList, []
       = .ok file ∧
     readTxt (fun t => some t) file = .ok [("a".toList, []), ("b".toList, [])] :=
   txt_roundtrip _ _ (fun _ _ => rfl) _ 0 (by decide) (by decide) (by decide) (by decide)
+
+/-- two polylines (ids 0 and 3), the second starting where the first ends -/
+def polysI : List (Poly Int) := [⟨0, [(0, 0), (5, 0), (5, 5)]⟩, ⟨3, [(5, 5), (9, 9)]⟩]
+
+example : read2d cI nI nearI degenI (hdrLines (some "# FID,X,Y") ++ polyRowsSpec cI polysI)
+      ⟨1, none, none, true, none⟩
+    = .ok ⟨[⟨(0, 0), (5, 0), []⟩, ⟨(5, 0), (5, 5), []⟩, ⟨(5, 5), (9, 9), []⟩],
+           domOr nI none (allPts polysI), [0, 0, 3]⟩ :=
+  polyline_read cI nI nearI degenI polysI (some "# FID,X,Y") 1 none faithfulI (Or.inr ⟨rfl, rfl⟩)
+    (by decide) (by decide) (by decide) (by decide)
+
+/-- a quadrilateral listed from its third vertex on: the angular sort (key = first coordinate here)
+    returns the ascending list, which is the same vertex cycle -/
+def quadA : List (Pt3 Int) := [(0, 0, 0), (1, 2, 0), (2, 3, 0), (3, 1, 0)]
+def quadF : List (Pt3 Int) := [(2, 3, 0), (3, 1, 0), (0, 0, 0), (1, 2, 0)]
+def keyI (p : Pt3 Int) : Rat := (p.1 : Rat)
+
+theorem quadA_asc : StrictAsc keyI quadA := by
+  simp only [StrictAsc, quadA, keyI, List.pairwise_cons, List.mem_cons, List.not_mem_nil, or_false,
+    forall_eq_or_imp, forall_eq, List.Pairwise.nil, and_true, false_imp_iff, implies_true]
+  decide +kernel
+
+example : Dihedral (angSort keyI quadF) quadF ∧ StrictAsc keyI (angSort keyI quadF) :=
+  angSort_dihedral keyI quadF ⟨quadA, quadA_asc, 2, Or.inl (by decide)⟩
+
+example : ∃ fs, read3d cI (normSort (fun _ => keyI)) (write3d cI [quadF] none) false = .ok ⟨fs, none⟩ ∧
+    Pointwise Dihedral fs [quadF] :=
+  csv3d_roundtrip_dihedral cI nI faithfulI (fun _ => keyI) [quadF] none (by decide)
+    (fun f hf => by
+      simp only [List.mem_cons, List.not_mem_nil, or_false] at hf
+      subst hf
+      exact ⟨quadA, quadA_asc, 2, Or.inl (by decide)⟩)
+    (Or.inr (by decide))
+
+example : readElliptic cI (fun p => .ok [(p.getD 0 0, p.getD 1 0, p.getD 8 0)])
+      (ellipticRows cI [[1, 2, 3, 5, 4, 0, 0, 0, 12]] (some ⟨0, 0, 0, 9, 9, 9⟩)) true
+    = .ok ⟨[[(1, 2, 12)]], some ⟨0, 0, 0, 9, 9, 9⟩⟩ := by
+  rw [show true = (some (⟨0, 0, 0, 9, 9, 9⟩ : Box3 Int)).isSome from rfl,
+    elliptic_transparent cI nI faithfulI _ _ _ (by decide)]
+  rfl
 
 end Examples
 
